@@ -254,6 +254,12 @@ func init() {
 			if acquire {
 				if try {
 					got := tb.Fresh("trylock", SBool)
+					if len(args) >= 2 && len(args[1].T) == 2 {
+						// TryLockCtx fails only because the context is done: its Err() is non-nil afterwards
+						cd := e.ghostArr(st, "ctxdone", SArrB)
+						key := tb.App("ctxkey", SInt, args[1].ifTag(), args[1].ifVal())
+						e.setGhost(st, "ctxdone", tb.Ite(got, cd, tb.Store(cd, key, tb.True())))
+					}
 					st.Ghost["held"] = tb.Ite(got, tb.Store(cur, ref, tb.True()), cur)
 					if st.Disc != nil {
 						st.Disc.Ghosts["held"] = true
